@@ -89,6 +89,14 @@ def check(an: Analysis) -> None:
         if not ok:
             ob.fail(m, None, f"{name} does not reject the modification on every path ({why})")
 
+    # type-level encoding: dataclass_transform(frozen_default=True) on the metaclass
+    meta = prog.cls("state.structure.StateMeta")
+    deco = next((d for d in meta.node.decorator_list if isinstance(d, ast.Call) and (dotted(d.func) or "").endswith("dataclass_transform")), None)
+    fz = next((k.value for k in deco.keywords if k.arg == "frozen_default"), None) if deco is not None else None
+    ob.inst(None, deco, "dataclass_transform") if deco is not None else None
+    if not (isinstance(fz, ast.Constant) and fz.value is True):
+        ob.fail(None, deco or meta.node, "StateMeta is not declared dataclass_transform(frozen_default=True): type checkers no longer reject `state.x = ...`", mod=meta.module, at=meta.qualname)
+
     # ------------------------------------------------------------------ C04.2 raw writes only in __init__
     ob = an.ob("C04.2", "K3", "object.__setattr__/__delattr__ (and instance-dict writes in haiway.state) occur only in State.__init__")
     init = prog.fn(f"{ST}.__init__")
@@ -264,3 +272,10 @@ def check(an: Analysis) -> None:
             ob.fail(eq, r, "equality does not compare every attribute of __ATTRIBUTES__ between self and other")
     if not cmps:
         ob.fail(eq, None, "equality never compares attribute values")
+
+
+def thorough(an: Analysis, repo: str) -> dict:
+    """E6: pyright compile-fail witness for the type-level encoding (with a passing twin)."""
+    from ..pyright_bridge import frozen_witness
+
+    return {"pyright_frozen_witness": frozen_witness(repo)}
